@@ -197,6 +197,12 @@ RECIPES.update({
 _ST_OPTS = dict(streams=True)
 RECIPES.update({
     'mc_result_serialize': dict(name='serialize', cls='mc_result', self='mc_result', opts=_ST_OPTS),
+    'vegas_result_serialize': dict(unit='chkpt', name='serialize', cls='vegas_result', self='vegas_result', opts=_ST_OPTS),
+    'vegas_result_ctor1': dict(unit='chkpt', name='vegas_result', cls='vegas_result', self='vegas_result', ctor=True, sel='istream', opts=_ST_OPTS),
+    'multi_channel_result_serialize': dict(unit='chkpt', name='serialize', cls='multi_channel_result', self='multi_channel_result', opts=_ST_OPTS),
+    'multi_channel_result_ctor1': dict(unit='chkpt', name='multi_channel_result', cls='multi_channel_result', self='multi_channel_result', ctor=True, sel='istream', opts=_ST_OPTS),
+    'rng_chkpt_plain_result_serialize': dict(unit='chkpt', name='serialize', cls='chkpt_with_rng', cls_targs_has='plain_result', self='rng_chkpt_plain_result', opts=_ST_OPTS),
+    'rng_chkpt_plain_result_ctor1': dict(unit='chkpt', name='chkpt_with_rng', cls='chkpt_with_rng', cls_targs_has='plain_result', self='rng_chkpt_plain_result', ctor=True, sel='istream', opts=_ST_OPTS),
     'vegas_pdf_serialize': dict(name='serialize', cls='vegas_pdf', self='vegas_pdf', opts=_ST_OPTS),
     'vegas_pdf_ctor1': dict(name='vegas_pdf', cls='vegas_pdf', self='vegas_pdf', ctor=True, sel='istream', opts=_ST_OPTS),
     'vegas_chkpt_serialize': dict(unit='chkpt', name='serialize', cls='vegas_chkpt', self='vegas_chkpt', opts=_ST_OPTS),
@@ -427,6 +433,18 @@ JOBS = [
          entry='h_c05_vegas_pdf', enforce=None, bounded=True, cbmc_flags=['--unwind', '14', '--unwinding-assertions'],
          structs=[dict(prelude='stream.h'), dict(cls='vegas_pdf', cls_targs=['double'])], globals='T nondet_T(void); size_t nondet_size_t(void);', loop_contracts=False,
          props=['C05', 'C03'], trusted=['iostream contract of vp/prelude/stream.h', 'BOUNDED: at most 3 dimensions x 3 bins (loops unwound with unwinding assertions)']),
+    dict(name='c05_vegas_result', functions=['vegas_result_serialize', 'vegas_result_ctor1', 'vegas_pdf_bins', 'vegas_pdf_dimensions'], specs=['c05_vegas_result'], harness_sections=['c05_vegas_result'],
+         entry='h_c05_vegas_result', enforce=None, bounded=True, cbmc_flags=['--unwind', '11', '--unwinding-assertions'],
+         structs=[dict(prelude='stream.h')] + _ST_VCHK[:6], preludes=['opaque.h'], globals='T nondet_T(void); size_t nondet_size_t(void);', loop_contracts=False,
+         props=['C05', 'C03', 'C19'], trusted=['iostream contract of vp/prelude/stream.h', 'nested plain_result and grid are single tokens in this lemma', 'BOUNDED: at most 3 x 3 adjustment data (loops unwound with unwinding assertions)']),
+    dict(name='c05_multi_channel_result', functions=['multi_channel_result_serialize', 'multi_channel_result_ctor1'], specs=['c05_multi_channel_result'], harness_sections=['c05_multi_channel_result'],
+         entry='h_c05_multi_channel_result', enforce=None, bounded=True, cbmc_flags=['--unwind', '8', '--unwinding-assertions'],
+         structs=[dict(prelude='stream.h')] + _ST_MCHK[:5], preludes=['opaque.h'], globals='T nondet_T(void); size_t nondet_size_t(void);', loop_contracts=False,
+         props=['C05', 'C03', 'C19'], trusted=['iostream contract of vp/prelude/stream.h', 'nested plain_result is a single token in this lemma', 'BOUNDED: at most 6 channels (loops unwound with unwinding assertions)']),
+    dict(name='c05_rng_chkpt', functions=['rng_chkpt_plain_result_serialize', 'rng_chkpt_plain_result_ctor1'], specs=['c05_rng_chkpt'], harness_sections=['c05_rng_chkpt'],
+         entry='h_c05_rng_chkpt', enforce=None, bounded=True, cbmc_flags=['--unwind', '9', '--unwinding-assertions'],
+         structs=[dict(prelude='stream.h')] + _ST_CHK + [dict(prelude='stream_stubs.h')], preludes=['opaque.h'], globals='T nondet_T(void); size_t nondet_size_t(void);', loop_contracts=False,
+         props=['C05', 'C03'], trusted=['iostream contract of vp/prelude/stream.h', 'operator<< / operator>> of a standard random number engine round-trip its state ([rand.req.eng]); an engine is one token', 'BOUNDED: at most 6 results, 7 generators (loops unwound with unwinding assertions)']),
     dict(name='refine_weights', functions=['multi_channel_refine_weights'], entry='h_multi_channel_refine_weights',
          enforce='multi_channel_refine_weights', replace=['vp_pow'], af=['multi_channel_refine_weights'], globals='T vp_g_s1, vp_g_s2; _Bool vp_g_nodata;',
          defines=['VP_NMAX=1048576'], props=['C08'], thorough_reals=['float'],
